@@ -265,8 +265,9 @@ def run(rep):
                                          qualname='GateType.operator', label=f'gate.{t}.operator/fold-all-arities'))
     # C. foreign tables
     table_obligations(rep, pv, it)
-    from . import c01_extra
+    from . import c01_extra, c01_eval
     c01_extra.add(rep, pv, it)
+    c01_eval.add_c01(rep, pv, it)
     # canary: gt_ must not be provable equal to lt_
     p, q = z3.Bools('p q')
     canary(rep, pv, 'C01/canary/gt-is-lt', [], theory.OPz('GT', [p, q]) == theory.OPz('LT', [p, q]))
